@@ -453,7 +453,8 @@ def run(F, rep):
     # ------------------------------------------------------------------ clause shared with C07: the library only holds models of files that were read successfully
     import core
     import c07
-    c07.run(F, core.Borrowed(rep, only={'C07.L1'}))
+    if not getattr(rep, 'nested', False):
+        c07.run(F, core.Borrowed(rep, only={'C07.L1'}))
 
     # ------------------------------------------------------------------ R2: self-recursion makes progress (library-wide)
     import recursion as _rec
